@@ -166,6 +166,13 @@ func (h *Handler) Handle(cx *layer4.Connection, next layer4.Handler) error {
 	// Set conn as a custom variable on cx.
 	cx.SetVar("l4.proxy_protocol.conn", conn)
 
+	// From here on the connection's addresses are the ones the header declares,
+	// for placeholders as well as for RemoteAddr() and LocalAddr().
+	if repl, ok := cx.Context.Value(layer4.ReplacerCtxKey).(*caddy.Replacer); ok {
+		repl.Set("l4.conn.remote_addr", conn.RemoteAddr())
+		repl.Set("l4.conn.local_addr", conn.LocalAddr())
+	}
+
 	return next.Handle(cx.Wrap(conn))
 }
 
